@@ -1,1 +1,38 @@
+import Got.Model.Ants
+import Got.Lemmas.Ants
 /- property theorems of C08 (only theorems + non-vacuity examples live here) -/
+open Got.Model.Ants
+
+def sec : Nat := 1000000000
+
+/-- N = 1. Task 0 (A): T = 1 s, R = 1, handler ignores ctx for 100 s. Task 1 (B): T = 1 s, R = 3, every handler
+    honours ctx. B is picked at 1 s; its second closure-send blocks on the full inner channel until A's handler
+    returns at 100 s; B is done at 101 s. Every clock step is taken in a quiescent state (maximal progress). -/
+def c08ClogActs : List Act :=
+  [.send 0 { timeout := 1000000000, retry := 1, discard := false, hasCb := true }, .busyTest 0, .enq 0, .take 0,
+   .loopTest 0, .sendCl 0, .wTake 0 0 0, .wStart 0 0 false, .hook3 0,
+   .send 1 { timeout := 1000000000, retry := 3, discard := false, hasCb := true }, .busyTest 1, .enq 1,
+   .advance sec, .fire 0 0, .selCtx 0, .hook2 0, .decide 0, .writeDE 0, .cancel 0, .errTest 0, .loopTest 0, .onError 0, .wgDone 0,
+   .take 1, .loopTest 1, .sendCl 1, .hook3 1,                         -- B picked at 1 s, closure 0 waits in the channel
+   .advance (2 * sec), .fire 1 0, .selCtx 1, .hook2 1, .decide 1, .writeDE 1, .cancel 1, .errTest 1, .loopTest 1,
+   -- attempt 2 of B: `sendCl 1` is NOT enabled (inner channel full, the only worker runs A's handler)
+   .advance (3 * sec), .fire 1 1,
+   .advance (100 * sec), .wEnd 0 0 5 .nil, .wCheck 0 0, .wClose 0 0,
+   .wTake 1 0 0, .sendCl 1, .hook3 1, .selCtx 1, .hook2 1, .decide 1, .writeDE 1, .cancel 1, .errTest 1, .loopTest 1,
+   .wStart 1 0 true, .wEnd 1 0 0 (.h 999), .wCheck 1 0, .wClose 1 0,
+   .wTake 1 1 0, .sendCl 1, .hook3 1, .wStart 1 1 true, .wEnd 1 1 0 (.h 999), .wCheck 1 1, .wClose 1 1,
+   .wTake 1 2 0, .wStart 1 2 true,
+   .advance (101 * sec), .fire 1 2, .wEnd 1 2 0 (.h 999), .wCheck 1 2, .wClose 1 2,
+   .selDone 1, .decide 1, .writeDE 1, .cancel 1, .errTest 1, .loopTest 1, .onError 1, .wgDone 1]
+
+/-
+Full-strength statement of the property's timing clause (FALSE, see below):
+  for every execution under maximal progress and every accepted task k whose own handlers honour cancellation,
+      doneAt k ≤ pickAt k + R k * T k.
+-/
+/-- the full-strength R·T bound is false: B's own handlers honour ctx, B is picked at 1 s, R·T = 3 s, done at 101 s. -/
+theorem C08_bound_full_false :
+    ∃ s, run { N := 1 } init c08ClogActs = some s ∧
+      (s.task 1).pc = .done ∧ (s.task 1).pickAt = sec ∧ (s.task 1).R * (s.task 1).T = 3 * sec ∧
+      (s.task 1).doneAt = 101 * sec ∧ ¬ (s.task 1).doneAt ≤ (s.task 1).pickAt + (s.task 1).R * (s.task 1).T := by
+  refine ⟨(run { N := 1 } init c08ClogActs).getD init, run_eq_some_getD (by decide), ?_, ?_, ?_, ?_, ?_⟩ <;> decide
